@@ -203,7 +203,7 @@ def cfg_checks(ctx, binp, spans):
     udiv = {"deg": deg, "milliw": mw, "deff": 1e-12 / volt}
     nbad = 0
     # ---- S4 (b): model of try_as_spdc vs implementation, first conversion
-    if os.path.exists(os.path.join(COQ, "Model", "ConfigCheck.vo")):
+    if True:
         nbad += c17mod.correspondence(ctx, obs, spans, units, label="C16cfg")
         # (c) generated as_config on the implementation's setup vs exported configuration; (d) second conversion
         defs = f"Definition UU : units Q := {cc.units_term(units)}.\nDefinition MP : Q := {cc.qh(units['min_positive'])}.\n"
@@ -343,7 +343,8 @@ def cfg_checks(ctx, binp, spans):
         if not rt["json1_roundtrip"]:
             back = lossy_fields(rt)
             ctx.violation("S5", "JSON serialisation of the exported configuration is not loss-free: serde_json::from_str(to_string(cfg)) != cfg "
-                          f"(fields with more than 15 significant digits: {back})", {"kind": "json_lossy", "which": "exported"},
+                          f"(fields with more than 15 significant digits: {back})",
+                          {"kind": "json_lossy", "which": "exported", "field": (back[0].rsplit(".", 1)[-1] if back else "?")},
                           dict(detail, exported=rt["json1"], long_fields=back))
         if not o.get("spdc_json_equals_config_json", True):
             ctx.violation("S5", "serialising the setup differs from serialising its configuration", {"kind": "spdc_serde"}, detail)
@@ -431,16 +432,13 @@ def run(ctx):
     ctx.cov["translated_spans"] = {k: v for k, v in spans.items() if k.startswith(("pm_type", "polarization", "math::sigfigs", "config::", "utils::from_kelvin"))}
     for m in msgs:
         ctx.proof_failures.append(("Gen/Config*.v", "translator", m))
-    proved = (not msgs) and prove(ctx, "C16")
+    proved = (not msgs) and prove(ctx, "C16", extra_targets=["Model/ConfigCheck.vo", "Model/Names.vo"])
     okf, _, _ = coq_build(ctx, ["Findings/C16_wrap.vo"])
     if not okf:
-        ctx.note("remark C16/wrap: Findings/C16_wrap.v no longer compiles (the model or the code changed)")
+        ctx.note("remark Findings/C16_wrap.v does not compile (no check depends on it)")
     nbad = 0
     if not getattr(ctx, "replay", None):
-        if os.path.exists(os.path.join(COQ, "Model", "Names.vo")):
-            nbad += names_checks(ctx, binp)
-        else:
-            ctx.note("regex engine comparison skipped: Model/Names.v did not compile")
+        nbad += names_checks(ctx, binp)
     nbad += cfg_checks(ctx, binp, spans)
     if (not proved or nbad) and not any(v["found_input"] for v in ctx.violations):
         ctx.log("S5 deep search for a failing input (proof obligations / correspondence are broken)")
